@@ -41,8 +41,49 @@ def make_ctx(widx, tier, opts):
     return ctx
 
 
+from hypothesis import strategies as st
+
+
+@st.composite
+def fmt_case(draw):
+    """Parameters of a program that formats composite values with to_string (the generated string builder grows in
+    steps of 256, 512, ... bytes): element counts and widths are drawn so that the text crosses and lands on those sizes."""
+    return {"n_int": draw(st.integers(0, 420)), "mul": draw(st.sampled_from([1, 7, 37, 1001, 123457, -3])),
+            "mod": draw(st.sampled_from([10, 100, 1000, 1000000007])),
+            "n_str": draw(st.integers(0, 70)), "slen": draw(st.integers(0, 40)),
+            "n_float": draw(st.integers(0, 120)), "n_bool": draw(st.integers(0, 150)),
+            "field_len": draw(st.sampled_from([0, 1, 100, 200, 220, 230, 240, 250, 255, 256, 257, 300, 500, 600, 1000])),
+            "union_len": draw(st.integers(0, 600))}
+
+
+def fmt_source(c):
+    L = ["struct C20P { a: int, s: string, f: float, b: bool }", "union C20U { A { x: int }, B { s: string } }",
+         "fn rep(n: int, u: string) -> string {", "    let mut r: string = \"\"", "    let mut i: int = 0", "    while (< i n) {",
+         "        set r (+ r u)", "        set i (+ i 1)", "    }", "    return r", "}", "shadow rep { assert (== (rep 2 \"a\") \"aa\") }",
+         "fn main() -> int {", "    let mut ai: array<int> = []", "    let mut i: int = 0",
+         "    while (< i %d) {" % c["n_int"], "        set ai (array_push ai (%% (* i %d) %d))" % (c["mul"], c["mod"]), "        set i (+ i 1)", "    }",
+         "    (println (str_length (to_string ai)))",
+         "    let mut sa: array<string> = []", "    set i 0", "    while (< i %d) {" % c["n_str"],
+         "        set sa (array_push sa (rep (%% (+ i %d) 41) \"x\"))" % c["slen"], "        set i (+ i 1)", "    }",
+         "    (println (str_length (to_string sa)))",
+         "    let mut fa: array<float> = []", "    set i 0", "    while (< i %d) {" % c["n_float"],
+         "        set fa (array_push fa (* (cast_float i) 1.25))", "        set i (+ i 1)", "    }",
+         "    (println (str_length (to_string fa)))",
+         "    let mut ba: array<bool> = []", "    set i 0", "    while (< i %d) {" % c["n_bool"],
+         "        set ba (array_push ba (== (% i 3) 0))", "        set i (+ i 1)", "    }",
+         "    (println (str_length (to_string ba)))",
+         "    let p: C20P = C20P { a: -5, s: (rep %d \"q\"), f: 2.5, b: true }" % c["field_len"],
+         "    (println (str_length (to_string p)))",
+         "    let u: C20U = C20U.B { s: (rep %d \"w\") }" % c["union_len"],
+         "    (println (str_length (to_string u)))",
+         "    return 0", "}", "shadow main { assert true }", ""]
+    return "\n".join(L)
+
+
 def strategy(ctx):
-    return progen.programs(features=ctx.features, size=ctx.size)
+    return st.one_of(progen.programs(features=ctx.features, size=ctx.size).map(lambda p: ("prog", p)),
+                     progen.programs(features=ctx.features, size=ctx.size).map(lambda p: ("prog", p)),
+                     fmt_case().map(lambda c: ("fmt", c)))
 
 
 def run_san(ctx, src, name="p.nano"):
@@ -63,7 +104,21 @@ def run_san(ctx, src, name="p.nano"):
     return "ok", "", r
 
 
-def run_case(ctx, prog, ev):
+def run_case(ctx, case, ev):
+    kind, prog = case
+    if kind == "fmt":
+        src = fmt_source(prog)
+        v, detail, r = run_san(ctx, src, "f.nano")
+        lens = [int(x) for x in r.out.split() if x.strip().lstrip(b"-").isdigit()] if v == "ok" else []
+        ev.case(src, v == "ok" and any(n >= 256 for n in lens))
+        ev.cls("fmt_verdict_" + v)
+        for n in lens:
+            ev.cls("fmt_text_ge_1024" if n >= 1024 else ("fmt_text_ge_256" if n >= 256 else "fmt_text_small"))
+        if v == "inconclusive":
+            ev.inconclusive += 1
+        if v == "violation":
+            raise CaseFailure(detail, {"result": r.brief()})
+        return
     ref = refeval.run(prog)
     src = progen.print_program(prog)
     for k, v in prog["excluded"].items():
@@ -86,7 +141,10 @@ def run_case(ctx, prog, ev):
         raise CaseFailure(detail, {"result": r.brief()})
 
 
-def describe_failure(ctx, prog, cf):
+def describe_failure(ctx, case, cf):
+    kind, prog = case
+    if kind == "fmt":
+        return {"src": fmt_source(prog), "detail": cf.detail, "payload": cf.payload, "sigs": []}
     open_sigs = [f.get("signature") for f in common.open_findings(PROP) if f.get("signature")]
     return {"src": progen.print_program(prog), "detail": cf.detail, "payload": cf.payload, "sigs": signatures.matching(prog, open_sigs)}
 
@@ -155,7 +213,7 @@ def main(tier):
             for s in summ["samples"][:1]:
                 ev.sample({"runtime_history_" + mode: s})
     # (a) programs
-    total = 320 if tier == "quick" else 10000
+    total = 480 if tier == "quick" else 12000
     results = harness.run_workers("pbt.c20_memsafe", tier, total)
     for r in results:
         ev.merge(r["evidence"])
